@@ -88,6 +88,12 @@ static Result judge_C03(const Case& c) {
     size_t i = 0; while (i < got.size() && i < want.size() && got[i] == want[i]) i++;
     return fail("serialized bytes differ from the RFC 8949 encoding at offset " + std::to_string(i) + ": got " + vh::hex(got).substr(0, 80) + " want " + vh::hex(want).substr(0, 80));
   }
+  if (st.unassigned_simple) {   // simple values 0..19 / 32..255: serialized per RFC 8949 (checked above), not decodable by libcbor's own decoder
+    cbor_decref(&t.item);
+    if (va::g.live_blocks) { r.ok = false; r.msg = "blocks left allocated after releasing the tree"; va::release_all(); }
+    r.klass = "unassigned-simple(no load-back)";
+    return r;
+  }
   // load back: consumes everything, equal tree, identical bytes again
   uint8_t* in = (uint8_t*)malloc(got.size()); memcpy(in, got.data(), got.size());
   struct cbor_load_result res; memset(&res, 0, sizeof res);
@@ -423,6 +429,7 @@ static void run_campaigns(Ctx& ctx) {
 
 static void driver_init() {
   cbor_set_allocs(va::vmalloc, va::vrealloc, va::vfree);
+  tp::allow_unassigned_simple = true;
   va::g.single_cap = (size_t)1 << 24;
 }
 static const char* kDriverName = "drv_tree";
